@@ -24,7 +24,6 @@ TRUSTED_BASE = ["Lean 4.33 kernel", "axioms: propext, Classical.choice, Quot.sou
                 "harness + generator + hex-float import", "driver glue (parsing, graph assembly from specGraph/edgesFrom)"]
 ASSUMPTIONS = ["Euclidean shortest paths among convex polygonal obstacles bend only at obstacle vertices (oracle definition)",
                "bends = interior route points where the direction changes"]
-WIP = True
 
 def plan(tier, seed, searching):
     return [dict(hargs=["--seed", str(seed), "--tier", tier, "--scale", "8" if searching else "1"])]
